@@ -19,11 +19,12 @@ META = {
 
 PROFILE = {"n_states": (2, 4), "n_events": (1, 3), "extra_transitions": (1, 5), "p_multi_event": 0.35,
            "p_guard": 0.2, "p_validator": 0.05, "p_conv": 0.3, "p_inline": 0.5, "p_deco": 0.25,
-           "p_internal": 0.5, "p_self": 0.3, "providers": ["sm", "model", "l0"]}
+           "p_internal": 0.5, "p_self": 0.3, "providers": ["sm", "model", "l0"], "p_nested": 0.08,
+           "nested_max": 1, "p_reuse_ref": 0.3}
 
 
 def owns(rule, flags):
-    return rule.startswith("C14.")
+    return rule.startswith("C14.") or rule == "C03.first-result"
 
 
 def make_case(rng, i):
